@@ -323,6 +323,25 @@ static CUR_START: std::sync::atomic::AtomicU64 = std::sync::atomic::AtomicU64::n
 /// a request that takes longer than this is a hang of the code under test: abort, the harness records it as data
 const WATCHDOG_MS: u64 = 20_000;
 
+/// C04/C15: the public `Source::is_boundary` / `Source::find_boundary` on str, String and [u8].
+/// request: `B <hex of valid UTF-8>`
+fn source_boundary(parts: &mut std::str::Split<char>) -> String {
+    use logos::Source;
+    let bytes = unhex(parts.next().unwrap_or(""));
+    let text = String::from_utf8(bytes.clone()).unwrap();
+    let n = bytes.len();
+    let list = |f: &dyn Fn(usize) -> String, upto: usize| (0..=upto).map(|i| f(i)).collect::<Vec<_>>().join(",");
+    let s: &str = &text;
+    let isb = list(&|i| s.is_boundary(i).to_string(), n + 2);
+    let isb_string = list(&|i| text.is_boundary(i).to_string(), n + 2);
+    let find = list(&|i| <str as Source>::find_boundary(s, i).to_string(), n);
+    let find_string = list(&|i| text.find_boundary(i).to_string(), n);
+    let b: &[u8] = &bytes;
+    let isbytes = list(&|i| b.is_boundary(i).to_string(), n + 2);
+    let findbytes = list(&|i| <[u8] as Source>::find_boundary(b, i).to_string(), n);
+    format!("\"isb\":[{isb}],\"isb_string\":[{isb_string}],\"find\":[{find}],\"find_string\":[{find_string}],\"isbytes\":[{isbytes}],\"findbytes\":[{findbytes}]")
+}
+
 fn main() {
     std::panic::set_hook(Box::new(|_| {}));
     let t0 = std::time::Instant::now();
@@ -346,8 +365,8 @@ fn main() {
         }
         CUR_START.store(t0.elapsed().as_millis() as u64 + 1, std::sync::atomic::Ordering::Relaxed);
         let mut out = String::from("{");
-        if first == "R" {
-            let r = catch_unwind(AssertUnwindSafe(|| source_read(&mut parts)));
+        if first == "R" || first == "B" {
+            let r = catch_unwind(AssertUnwindSafe(|| if first == "B" { source_boundary(&mut parts) } else { source_read(&mut parts) }));
             match r {
                 Ok(b) => out.push_str(&b),
                 Err(_) => out.push_str("\"panic\":\"panic\""),
